@@ -193,7 +193,7 @@ def extract():
     lit("src/frame/serial/crc.rs", r"\(reg >> 1\) \^ (0x[0-9A-Fa-f]+)", "CRC_POLY_REFLECTED")
     lit("src/half_connection/send_rate.rs", r"self\.nofeedback_exp_ms = Some\(now_ms \+ ([0-9]+)\);", "NOFEEDBACK_INITIAL_MS")
     lit("src/half_connection/loss_rate.rs", r"self\.entries\.truncate\(([0-9]+)\);\s*\} else", "LOSS_INTERVAL_MAX")
-    lit("src/half_connection/mod.rs", r"forget_frames\(now_ms\.saturating_sub\(rtt_ms\*([0-9]+)\)", "FORGET_RTT_MULT")
+    lit("src/half_connection/mod.rs", r"forget_frames\(now_ms\.saturating_sub\(\(?rtt_ms\*([0-9]+)\)", "FORGET_RTT_MULT")
 
     # CRC table
     m = re.search(r"static PARTIAL_RESULTS: \[u32; (\d+)\] = \[(.*?)\];", strip_comments(load("src/frame/serial/crc.rs")), flags=re.S)
